@@ -103,7 +103,7 @@ def run(prop, tier, seed, replay=None, ck=None, finish=True):
                               'steps': [{'a': a, 'c': c, 'g': g} for a, c, g in rep['steps']]}], 'known': [], 'random': {'n': 0, 'seed': 1}}
         ck.cov['evaluations'] = 1
         ck.cov['distinct_nontrivial'] = 1
-        r = harness(ck, job)
+        r = harness(ck, job, INSTR_FINE if rep.get('fine') else None)
         if r:
             report(ck, prop, r)
         return fin()
